@@ -837,18 +837,10 @@ def judge_cases(run: Run, W: World, cases, label='judgement'):
         im = impl_match(W, pv, text, x, c=c)
         st.count('match:' + im[:7])
         tags = []
-        if a['fi'] == '1':
-            tags.append('F18i')
         if a['fk'] == '1':
             tags.append('F18k')
             st.count('type-argument-kind-test')
-        # INTERIM (until branch fix-c18-4 is in the reference tree): the model describes the repaired map / array
-        # matching; where the specification gives no verdict (static-error names) a judgement of the F18i region
-        # cannot be attributed and is skipped
-        interim_skip = spec is None and a['fi'] == '1'
-        if interim_skip:
-            st.count('interim:F18i-region-without-spec(skipped)')
-        elif im != a['match'] or (spec is not None and im != spec):
+        if im != a['match'] or (spec is not None and im != spec):
             run.disagree(Disagreement(dict(case, op='match_sequence_type'), im, a['match'], spec,
                                       what='match_sequence_type', site='sequence_types.match_sequence_type', tags=tags))
         if x == 1 and c == 0 and len(vt) % 3 == 0:
@@ -870,8 +862,6 @@ def judge_cases(run: Run, W: World, cases, label='judgement'):
         st.count('instance:' + ii[:7])
         st.count('treat:' + it[:7])
         itags = list(tags)
-        if a['fd'] == '1':
-            itags.append('F18d')
         # a function-typed parameter applies the function conversion rules; they leave node / function / map / array
         # items alone, so for those types the specification's matching is the oracle; for atomic types tie only
         pspec = spec
@@ -880,8 +870,6 @@ def judge_cases(run: Run, W: World, cases, label='judgement'):
                 ('treat as', it, a['treat'], 'treat-as', 'evaluate__treat_expression', spec),
                 ('function parameter', ip, a['param'], 'function-parameter', '_InlineFunction.__call__.get_argument', pspec)):
             if got is None:
-                continue
-            if interim_skip:
                 continue
             if op == 'function parameter' and got == 'E:XPST0003' and (a['fpp'] == '1' or ty[0] == 'F'):
                 # the declaration `function($g as T)` itself is rejected by the parser (F18p family): nothing is judged
@@ -1041,13 +1029,12 @@ def laws_of_real_relation(run: Run, W: World, types, values, tag_check=True):
                 if mt[vi, j] is True:
                     st.count('law:sound-checked')
                     if mt[vi, i] is not True:
-                        trig = has_typed_func(types[i]) and (' m ' in ' ' + vt or ' r ' in ' ' + vt)
-                        if sound_viol < 8 or not trig:
+                        if sound_viol < 8:
                             run.disagree(Disagreement(
                                 {'law': 'sound', 'super': texts[i], 'candidate': texts[j], 'value': vt},
                                 f'restriction=True match(v,candidate)=True match(v,super)={mt[vi, i]}', None, 'holds',
                                 what='law-sound', site='sequence_types.is_sequence_type_restriction',
-                                tags=['F18i'] if trig else []))
+                                tags=[]))
                         sound_viol += 1
 
 
@@ -1560,13 +1547,10 @@ def signatures(run: Run, W: World):
                 ok += 1
             else:
                 unmatched.append(f'{expr} -> {type(res).__name__} !~ {ret_text} ({good})')
-                # F18s trigger: fn:namespace-uri applied to the empty sequence or to a node without a name
-                a0 = vals[0] if vals else None
-                trig = qname.qname == 'fn:namespace-uri' and (a0 == [] or (a0 and getattr(a0[0], 'name', None) is None))
                 run.disagree(Disagreement({'call': expr, 'args': {k: repr(v)[:60] for k, v in variables.items()},
                                            'declared': sig, 'result': repr(res)[:80]}, f'result-matches={good}', None,
                                           'result-matches=True', what='signature-return-type',
-                                          site=key, tags=['F18s'] if trig else []))
+                                          site=key, tags=[]))
             break
         else:
             status[key] = 'not called: ' + last_err
